@@ -2218,10 +2218,11 @@ class PyCdlib:
         """
         try:
             self._open_fp(fp)
-        except (struct.error, IndexError, KeyError, ValueError) as err:
+        except (struct.error, IndexError, KeyError, ValueError, OverflowError) as err:
             # These are what decoding damaged or truncated structures ends up
-            # raising (ValueError includes UnicodeDecodeError); the ISO is
-            # invalid, so say so.
+            # raising (ValueError includes UnicodeDecodeError, OverflowError
+            # comes from seeking to a 64-bit position no file can have); the
+            # ISO is invalid, so say so.
             raise pycdlibexception.PyCdlibInvalidISO('Malformed ISO: %s' % (str(err)))
 
     def _open_fp(self, fp):
